@@ -668,9 +668,11 @@ class Execution:
                 return
             if state == TORN:
                 # not judged: the property speaks about dumps that happened (DESIGN §4.3)
+                # The object is whatever a truncated file happens to parse to (a YAML file cut at a line
+                # boundary is a valid shorter document; arrays may be ragged).  It is not "an output
+                # produced by the runner", so it is not kept as a live object: judging later dumps of it
+                # would be a false alarm (C15 thorough run index 41930 of VERIF_SEED=0 did exactly that).
                 self.probes["torn_file_loaded"] += 1
-                snap = snapshot(out)
-                self.live[op["handle"]] = {"out": out, "snap": snap, "origin": "loaded-torn"}
                 self.log(i, kind, "torn-loaded")
                 return
             snap = snapshot(out)
